@@ -656,3 +656,164 @@ def _is_total(prog, t):
     k = L(fld(prog, pst, 'nb_source_symbols', ('param', 1)))
     r = L(fld(prog, pst, 'nb_repair_symbols', ('param', 1)))
     return t in (('bin', 'add', k, r), ('bin', 'add', r, k), L(fld(prog, 'of_ldpc_staircase_cb', 'nb_total_symbols')))
+
+
+# ------------------------------------------------------------------ R-ROWDEG2: RFC 5170 "at least two entries per row"
+def r_rowdeg2(ctx, prog):
+    """RFC 5170 5.2: after the regular fill, every row with no source entry gets one, and every row that then has exactly one gets
+    a second one in a different column.  Decided by a typestate walk over one iteration of the row loop: the abstract row degree
+    (0, 1, >=2) is refined by the emptiness tests on the row's first / second entry and incremented by insertions; at the end
+    of the iteration (with more than one source column) only ">= 2" may remain."""
+    R = 'R-ROWDEG2'
+    ctx.rule(R, 'in the "extra entries" step of the matrix constructor every row leaves its iteration with at least two source entries '
+             '(typestate walk over the row degree: emptiness tests refine it, insertions into the current row increment it)', floor=1)
+    f = prog.need_fn(PCHK, R)
+    tt = Terms(f)
+    M = _matrix_term(f, tt)
+    ctx.need(M is not None, R, 'matrix allocation not found')
+    target = None
+    for lp in f.loops.values():
+        lr = loop_range(f, lp, tt)
+        if lr is None or lp.depth != 1:
+            continue
+        if not (lr.start == ('const', 0) and lr.bound == ('param', 0) and lr.step == 1 and lr.pred in ('ult', 'slt')):
+            continue
+        calls = list(calls_in_loop(f, lp))
+        iv = tt.term(_V(lr.iv))
+        ins = [c for c in calls if c.callee == 'of_mod2sparse_insert' and tt.term(c.args[0]) == M and tt.term(c.args[1]) == iv]
+        if ins and any(c.callee == 'of_rfc5170_rand' for c in calls):
+            target = (lp, lr, iv, ins)
+    if target is None:
+        ctx.fail(R, f, 'rowdeg2:loop', 'no loop over the rows [0, n-k) that adds random entries to the current row: rows with fewer '
+                 'than two source entries are no longer topped up (RFC 5170 5.2)')
+        return
+    lp, lr, iv, ins = target
+    ctx.ok(R, lr.cmp, 'rowdeg2:loop', 'row loop found')
+    body = set(lp.blocks)
+    hid = lp.header.id
+
+    def is_first(t):
+        # M->rows[i].right
+        return (t[0] == 'load' and t[1][0] == 'field' and t[1][2] == 'right' and t[1][1][0] == 'elem' and _strip(t[1][1][2]) == _strip(iv)
+                and t[1][1][1][0] == 'load' and t[1][1][1][1][0] == 'field' and t[1][1][1][1][2] == 'rows' and t[1][1][1][1][1] == M)
+
+    def _strip(t):
+        while isinstance(t, tuple) and t[0] in ('trunc',):
+            t = t[2]
+        return t
+    state_in = {}
+    state_out = {}
+    problems = []
+
+    def entry_valid(v, use_state, use_block, use_inst=None):
+        """is value v (an entry pointer) the first entry of the non-empty current row at the point of use?"""
+        v = strip_casts(v)
+        if v.k != 'i':
+            return False
+        i = v.inst
+        if i.op == 'phi':
+            return all(entry_valid(x, state_out.get((bid, i.block.id)), bid) for bid, x in i.incoming)
+        if i.op == 'call' and i.callee == 'of_mod2sparse_insert' and tt.term(i.args[0]) == M and tt.term(i.args[1]) == iv:
+            # the entry just inserted is the row's first entry iff the row was empty before
+            return pre_insert.get(i.id) == frozenset([0])
+        if i.op == 'load' and is_first(tt.term(v)):
+            # row->right: the first entry when the row is known non-empty at the use and no insertion can run in between
+            if use_state is None or 0 in use_state:
+                return False
+            for c in ins:
+                if c.block.id == i.block.id:
+                    if i.block.insts.index(c) > i.block.insts.index(i):
+                        if use_block == i.block.id and use_inst is not None and i.block.insts.index(use_inst) < i.block.insts.index(c):
+                            continue
+                        return False
+                elif f.dominates(i, c) and use_block in f.reachable(c.block, stop=[lp.header]):
+                    return False
+            return True
+        return False
+    pre_insert = {}
+    at_load = {}
+    order = [b for b in f.blocks if b.id in body]
+    changed = True
+    rounds = 0
+    FULL = frozenset([0, 1, 2])
+    state_in[hid] = FULL
+    while changed and rounds < 50:
+        changed = False
+        rounds += 1
+        del problems[:]
+        for b in order:
+            if b.id == hid:
+                st = FULL
+            else:
+                st = frozenset()
+                for p in b.preds:
+                    if (p.id, b.id) in state_out:
+                        st = st | state_out[(p.id, b.id)]
+            if not st and b.id != hid:
+                continue
+            state_in[b.id] = st
+            cur = st
+            for i in b.insts:
+                if i.op == 'load' and is_first(tt.term(_V(i))):
+                    at_load[i.id] = cur
+                if i.op == 'call' and i.callee == 'of_mod2sparse_insert' and tt.term(i.args[0]) == M:
+                    if tt.term(i.args[1]) != iv:
+                        continue
+                    pre_insert[i.id] = cur
+                    col = tt.term(i.args[2])
+                    distinct = any(a[0] == 'cmp' and a[1] == 'ne' and (_strip(a[2]) == _strip(col) or _strip(a[3]) == _strip(col))
+                                   for a in atoms_at(f, tt, b))
+                    nxt = set()
+                    for d in cur:
+                        if d == 0:
+                            nxt.add(1)
+                        elif d == 1:
+                            nxt.add(2)
+                            if not distinct:
+                                nxt.add(1)      # may hit the existing entry
+                        else:
+                            nxt.add(2)
+                    cur = frozenset(nxt)
+            for s2, lab in out_edges(b):
+                out = cur
+                if lab is not None and lab[0] == 'br':
+                    ct = tt.term(lab[1])
+                    pol = lab[2]
+                    if ct[0] == 'cmp' and ct[3] == ('const', 0) and ct[1] in ('slt', 'sge') and ct[2][0] == 'load' and \
+                            ct[2][1][0] == 'field' and ct[2][1][2] == 'row':
+                        atend = pol if ct[1] == 'slt' else (not pol)
+                        icmp = strip_casts(lab[1]).inst
+                        ld = strip_casts(icmp.ops[0]).inst          # load of ->row
+                        ent = strip_casts(ld.ops[0])                 # gep X->row
+                        entv = strip_casts(ent.inst.ops[0]) if ent.k == 'i' and ent.inst.op == 'getelementptr' else None
+                        X = ct[2][1][1]
+                        if is_first(X):
+                            out = cur & (frozenset([0]) if atend else frozenset([1, 2]))
+                        elif X[0] == 'load' and X[1][0] == 'field' and X[1][2] == 'right' and entv is not None and entv.k == 'i' \
+                                and entv.inst.op == 'load':
+                            # X = E->right
+                            g = strip_casts(entv.inst.ops[0])
+                            E = strip_casts(g.inst.ops[0]) if g.k == 'i' and g.inst.op == 'getelementptr' else None
+                            if E is not None and entry_valid(E, cur, b.id, icmp):
+                                out = cur & (frozenset([0, 1]) if atend else frozenset([2]))
+                                out = out - frozenset([0]) if 0 not in cur else out
+                            else:
+                                problems.append((icmp, 'the test of the second entry starts from a pointer that need not be the '
+                                                 'first entry of the row'))
+                    elif ct[0] == 'cmp' and ct[1] == 'ugt' and ct[3] == ('const', 1) and not pol and 'load' not in repr(ct[2]):
+                        out = frozenset()       # assumption: more than one source column
+                if state_out.get((b.id, s2.id)) != out:
+                    state_out[(b.id, s2.id)] = out
+                    changed = True
+    if problems:
+        ctx.broken(R, '%s: %s' % (problems[0][0].loc(), problems[0][1]))
+    final = frozenset()
+    for (p, s), st in state_out.items():
+        if s == hid and p in body:
+            final = final | st
+    left = sorted(final - frozenset([2]))
+    where = ins[0]
+    ctx.instance(R, not left, where, 'rowdeg2:postcondition',
+                 'a row can leave the "extra entries" step with %s source entr%s (more than one source column): RFC 5170 requires at '
+                 'least two per row, so the matrix -- and every repair symbol -- differs from the specified code' %
+                 (' or '.join(str(x) for x in left), 'y' if left == [1] else 'ies'))
